@@ -193,6 +193,67 @@ func runStProg(t *testing.T, reg *tokReg, p stProg) (sent []int64, obs string) {
 	return
 }
 
+// the sequence of a generated server-streaming stub; the handler returns k at once, without reading
+func runStStub(t *testing.T, reg *tokReg, rk int, k *hkind, early bool) (obs string) {
+	bubble(t, func(t *testing.T) {
+		impl := &echoImpl{stream: func(kind string, ss grpc.ServerStream) error { return k.err() }}
+		l := NewLink(false)
+		srv := newEchoServer("dst", impl)
+		ret := make(chan error, 1)
+		go func() { ret <- srv.Serve(context.Background(), l.S) }()
+		cc := goat.NewClientConn(l.C, "src", "dst")
+		desc, method := descBidi, "/verif.Echo/Bidi"
+		switch rk {
+		case 1:
+			desc, method = descCStream, "/verif.Echo/CStream"
+		case 2:
+			desc, method = descSStream, "/verif.Echo/SStream"
+		}
+		ctx, cancel := context.WithCancel(context.Background())
+		cs, err := cc.NewStream(ctx, desc, method)
+		if err != nil {
+			t.Fatal(err)
+		}
+		synctest.Wait()
+		l.StepC2S() // the opening envelope: the handler runs and returns
+		synctest.Wait()
+		if early {
+			for l.StepS2C() { // the final status reaches the client and is processed before the caller sends anything
+			}
+			synctest.Wait()
+		}
+		// what the generated stub does (the link keeps its FIFO order: the held final status is delivered before
+		// anything the server writes later, e.g. its reset for the late request)
+		err = cs.SendMsg(bv([]byte("request")))
+		synctest.Wait()
+		if err == nil {
+			err = cs.CloseSend()
+			synctest.Wait()
+		}
+		for round := 0; round < 3; round++ {
+			for l.StepS2C() {
+			}
+			synctest.Wait()
+			for l.StepC2S() {
+			}
+			synctest.Wait()
+		}
+		if err != nil {
+			obs = reg.sobsCoq(nil, reg.termCoq(err)) // the stub returns (nil, err): this is all the caller gets
+		} else {
+			bodies, term := reg.drain(cs)
+			obs = reg.sobsCoq(bodies, term)
+		}
+		cancel()
+		synctest.Wait()
+		l.C.FailRead(io.EOF)
+		l.S.FailRead(io.EOF)
+		synctest.Wait()
+		<-ret
+	})
+	return
+}
+
 func TestC03E2E(t *testing.T) {
 	em := NewEmitter()
 	defer em.Close()
@@ -283,6 +344,28 @@ func TestC03E2E(t *testing.T) {
 					stEnd(em, idx)
 					idx++
 				}
+			}
+		}
+	}
+
+	// ---- the generated stub's sequence (NewStream; SendMsg(req); CloseSend; Recv...) when the server's final status has
+	//      been processed by the client BEFORE the caller's first SendMsg (a stream interceptor / handler that fails
+	//      without reading): what the stub returns - SendMsg's error - must be the handler's status, never a success
+	for _, k := range small {
+		for _, rk := range []int{1, 2, 3} {
+			for _, early := range []bool{true, false} {
+				if !want(idx) {
+					idx++
+					continue
+				}
+				stBegin(em, idx)
+				obs := runStStub(t, reg, rk, k, early)
+				tags := append(k.tags(), "part=e2e", fmt.Sprintf("rpc=%s", map[int]string{1: "client-stream", 2: "server-stream", 3: "bidi"}[rk]),
+					fmt.Sprintf("position=status-processed-before-first-SendMsg=%v", early))
+				em.Emit(Rec{Idx: idx, Kind: "e2e-stream-stub", Desc: map[string]any{"rk": rk, "early": early, "err": k.desc()}, Tags: tags,
+					Coq: fmt.Sprintf("CE2ES %d %s [] %s", rk, k.coq(reg), obs)})
+				stEnd(em, idx)
+				idx++
 			}
 		}
 	}
